@@ -100,6 +100,11 @@ def check_fd_close(c, f, is_release):
         # not before the release (a failed release must leave the object open -- and the fd known)
         pre = [n for n in asg if g.path(n, rn, skip_labels=('exc',)) is not None]
         c.check(not pre, f, pre[0].ast if pre else rk, 'self.%s is reset only after the release' % attr, tag='order:' + attr)
+        # and never WITHOUT the release: the object must not claim to be closed while the descriptor is still open
+        for a_ in asg:
+            okr, p2 = g.dominated_by(a_, {rn})
+            c.check(okr, f, a_.ast, 'self.%s is reset only on paths that really released the descriptor (otherwise the descriptor leaks and '
+                    'later I/O still reaches the peer)' % attr, witness=g.describe_path(p2) if p2 else None, tag='released-before:' + attr)
     # what is released is self.child_fd / self.socket
     if dotted(rk.func) == 'os.close':
         c.check(rk.args and norm(rk.args[0]) == 'self.child_fd', f, rk, 'the descriptor released is self.child_fd', witness=norm(rk), kind='ast', tag='release-arg')
@@ -123,6 +128,15 @@ def check_pty_close(c, f):
                 witness=g.describe_path(p) if p else None, tag='post:' + attr)
     mn, mx = g.occurrences(lambda x: x is n)
     c.check(mn == 1 and mx == 1, f, k, 'ptyprocess.close() is called on every path (idempotence is ptyprocess\' own)', witness='min=%s max=%s' % (mn, mx), tag='always-closes')
+    # a close that FAILED (PtyProcessError: child survived the polite signals) must not mark the object closed:
+    # no assignment of closed/child_fd may be reachable from the exceptional continuation of the close call
+    marks = [m for m in g.nodes if m.kind == 'stmt' and (stmt_assigns_attr(m.ast, 'closed') is not None or stmt_assigns_attr(m.ast, 'child_fd') is not None)]
+    exc_succ = [s2 for s2, l2 in n.succ if l2 in ('exc', 'raise')]
+    wn = [x for x in g.nodes if x.kind == 'with' and any(n is y for y in g.reachable(x, skip_labels=('exc',)))]
+    reach_exc = g.reachable(exc_succ) if exc_succ else set()
+    bad = [m for m in marks if m in reach_exc]
+    c.check(not bad, f, bad[0].ast if bad else k, 'when ptyprocess.close() raises (the child could not be terminated) the object is NOT marked closed, '
+            'so a later close(force=True) or the with-block exit still acts on the child', tag='failed-close-stays-open')
 
 
 FD_PRIMS = ('os.read', 'os.write', 'os.close', 'os.isatty', 'os.fstat')
@@ -230,6 +244,9 @@ MUTANTS = [
     ('fd-close-no-reset', 'fdpexpect', "        os.close(self.child_fd)\n        self.child_fd = -1\n        self.closed = True", "        os.close(self.child_fd)\n        self.closed = True", 'D1'),
     ('fd-close-no-early', 'fdpexpect', "        if self.child_fd == -1:\n            return\n\n        self.flush()\n        os.close(self.child_fd)", "        self.flush()\n        os.close(self.child_fd)", 'D1'),
     ('socket-reset-before', 'socket_pexpect', "        self.socket.shutdown(socket.SHUT_RDWR)\n        self.socket.close()\n        self.child_fd = -1\n        self.closed = True", "        self.child_fd = -1\n        self.closed = True\n        self.socket.shutdown(socket.SHUT_RDWR)\n        self.socket.close()", 'D1'),
+    ('socket-close-skipped-after-eof', 'socket_pexpect', "        self.socket.shutdown(socket.SHUT_RDWR)\n        self.socket.close()\n        self.child_fd = -1", "        if not self.flag_eof:\n            self.socket.shutdown(socket.SHUT_RDWR)\n            self.socket.close()\n        self.child_fd = -1", 'D1'),
+    ('pty-close-marks-in-finally', 'pty_spawn', "        with _wrap_ptyprocess_err():\n            # PtyProcessError may be raised if it is not possible to terminate\n            # the child.\n            self.ptyproc.close(force=force)\n        self.isalive()  # Update exit status from ptyproc\n        self.child_fd = -1\n        self.closed = True",
+     "        try:\n            with _wrap_ptyprocess_err():\n                self.ptyproc.close(force=force)\n            self.isalive()  # Update exit status from ptyproc\n        finally:\n            self.child_fd = -1\n            self.closed = True", 'D1'),
     ('pty-close-force-dropped', 'pty_spawn', "            self.ptyproc.close(force=force)", "            self.ptyproc.close(force=False)", 'D1'),
     ('pty-close-closed-only-if-dead', 'pty_spawn', "        self.isalive()  # Update exit status from ptyproc\n        self.child_fd = -1\n        self.closed = True", "        if not self.isalive():  # Update exit status from ptyproc\n            self.child_fd = -1\n        self.closed = True", 'D1'),
     ('read-cached-fd', 'spawnbase', "            s = os.read(self.child_fd, size)", "            s = os.read(self._fd_cache, size)", 'D2'),
